@@ -15,6 +15,7 @@ import Scico.Proofs.OpAlgDtU
 import Scico.Proofs.OpAlgStackTree
 import Scico.Proofs.OpAlgStackDt
 import Scico.Proofs.OpAlgFreeze
+import Scico.Proofs.OpAlgRep
 
 namespace Scico.Props.C12
 open Scico.Shape
@@ -302,6 +303,35 @@ theorem C12_function_meta (f : Fn K) (k : Int) (fixArgs : List (Vc K)) (fixDts :
     obtain ⟨_, a, b, c, d, _⟩ := j2 r hr
     exact ⟨a, b, c, d⟩
 
+/-- **`DiagonalReplicated`: axes and declared shapes** (repaired tree, 9420b1a).  An accepted
+    `DiagonalReplicated(op, N, input_axis, output_axis)` has plain operand shapes, both axes resolved to
+    positions `a ≤ len(input_shape)`, `b ≤ len(output_shape)` (`output_axis=None` means `b = a`),
+    declares `shape[0:a] + (N,) + shape[a:]` on both sides — `N` times the operand's sizes — and the
+    operand's dtypes; a negative `output_axis` is the axis counted from the end; one outside
+    `[-(d+1), d]` is rejected. -/
+theorem C12_drep_meta (lin : Bool) (o : Obj K) (N : Nat) (ia : Int) (oa : Option Int) :
+    (∀ r, drep lin o N ia oa = .ok r →
+      ∃ din dout a b, o.md.inShape = .plain din ∧ o.md.outShape = .plain dout
+        ∧ normAxis din.length ia = some a ∧ a ≤ din.length ∧ b ≤ dout.length
+        ∧ (match oa with | none => b = a | some ax => normAxis dout.length ax = some b)
+        ∧ r.md.inShape = .plain (insertDim din a N) ∧ r.md.outShape = .plain (insertDim dout b N)
+        ∧ r.md.inDt = o.md.inDt ∧ r.md.outDt = o.md.outDt
+        ∧ r.md.inShape.size = N * o.md.inShape.size ∧ r.md.outShape.size = N * o.md.outShape.size)
+    ∧ (∀ dout ax, o.md.outShape = .plain dout → -(dout.length : Int) - 1 ≤ ax → ax < 0 →
+        drep lin o N ia (some ax) = drep lin o N ia (some ((dout.length : Int) + 1 + ax)))
+    ∧ (∀ dout ax, o.md.outShape = .plain dout → (ax < -(dout.length : Int) - 1 ∨ (dout.length : Int) < ax) →
+        ∃ e, drep lin o N ia (some ax) = .error e) := by
+  refine ⟨fun r h => ?_, fun dout ax hout h1 h2 => drep_neg_output_axis lin o N ia dout hout ax h1 h2,
+    fun dout ax hout h => drep_reject_output_axis lin o N ia dout hout ax h⟩
+  obtain ⟨din, dout, a, b, h1, h2, h3, h4, h5, h6, h7, h8, h9, h10, _, _⟩ := drep_spec lin o N ia oa r h
+  refine ⟨din, dout, a, b, h1, h2, h3, normAxis_le h3, ?_, ?_, h5, h6, h7, h8, h9, h10⟩
+  · cases oa with
+    | none => simp only at h4; omega
+    | some ax => exact normAxis_le h4
+  · cases oa with
+    | none => exact h4.2
+    | some ax => exact h4
+
 /-- `jax.numpy.result_type` on scico's four dtypes is the join of a lattice: commutative,
     associative, idempotent, with `float32` as bottom — so the declared dtype of a sum does not
     depend on operand order or grouping. -/
@@ -360,6 +390,13 @@ example : ∃ r, freeze fzOp (-1) (.plain [3]) .f64 ⟨3, fun _ => 1⟩ = .ok r 
 example : freeze fzOp (-1) (.plain [3]) .f64 ⟨3, fun _ => 1⟩ = freeze fzOp 1 (.plain [3]) .f64 ⟨3, fun _ => 1⟩ :=
   (C12_freeze_meta fzOp (-1) _ _ _).2.1 [[2], [3]] rfl (by decide) (by decide)
 example : ∃ e, freeze fzOp (-3) (.plain [3]) .f64 ⟨3, fun _ => 1⟩ = .error e := ⟨_, rfl⟩
+
+/-- `DiagonalReplicated(A: (3,)→(2,), 4, output_axis=-1)` declares `(2, 4)` (the witness of the repaired
+    finding `diagonal-replicated-output-axis`; the pinned code declared `(4, 2)` and returned `(2, 4)`) -/
+def drOp : Obj ℚ := mkMat 2 3 .f64 (fun i j => (i : ℚ) + j)
+example : ∃ r, drep true drOp 4 0 (some (-1)) = .ok r ∧ r.md.outShape = .plain [2, 4]
+    ∧ r.md.inShape = .plain [4, 3] := ⟨_, rfl, rfl, rfl⟩
+example : ∃ e, drep true drOp 4 0 (some 2) = .error e := ⟨_, rfl⟩
 
 end dtexamples
 
